@@ -92,6 +92,10 @@ func genConfig(rt *rapid.T, p *Profile) Config {
 	default:
 		cfg.Deny = []int{3}
 	}
+	if len(cfg.Deny) > 0 && rapid.IntRange(0, 3).Draw(rt, "denyLater") == 0 {
+		// the operator bans the peers only later, possibly while permissions for them exist
+		cfg.DenyAfterS = rapid.SampledFrom([]int{1, 30, 100, 200, 299, 301, 400, 700}).Draw(rt, "denyAfter")
+	}
 	if nc > 1 && rapid.IntRange(0, 4).Draw(rt, "denyPerClient") == 0 {
 		cfg.DenyClient = rapid.IntRange(0, nc-1).Draw(rt, "denyClient")
 	}
